@@ -14,6 +14,11 @@
     (`Node`); two headers over one array alias, exactly as in Go.  The translated functions contain no slice expression, so
     every header starts at the beginning of its array (no offset).  `append` writes in place when len < cap and allocates
     otherwise; the growth policy is the field `grow` of the state, never changed, so every theorem holds for every policy.
+  * `(*NodeList).Append` has a POINTER receiver that it writes through (`*nl = append(*nl, v)`): the translated function takes
+    the value of `*nl` and returns the new one, and a call `x.Append(a)` on a local list variable (Go takes `&x`) rebinds `x`.
+    The translator checks that the pointer is used for nothing but `*nl` and method calls, so no other alias of the VARIABLE
+    exists (aliases of the ARRAY are what the heap of arrays is for).  `x == v` between an interface value and a value of a
+    comparable node type is equality of `Node`s.
   * A `parsley.Node` value (`Node`) has one of the dynamic types the library defines: nil, *ast.TerminalNode,
     *ast.NonTerminalNode, ast.EmptyNode, parser.EndNode, ast.NodeList; node types defined by users (and the typed terminal
     nodes of text/terminal, which behave like *ast.TerminalNode here) are NOT modelled.  A type test `x.(I)` for an
@@ -22,6 +27,8 @@
     type that calls the translated method of that type (`Go.noMethod`: excluded by Go's type system).
   * The call-back `f func(parsley.Pos) parsley.Pos` is a function `Int → Int`: it is ASSUMED not to touch the node structs
     and the arrays (text.RightTrim's call-back reads the input and assigns a captured error variable).
+  * A loop whose body returns or changes a variable of the function is a loop function in continuation style (its exit branch
+    is what follows the loop); a call of an unexported helper of the package is translated in line, in continuation style.
   * Recursion (ast.SetReaderPos ↔ NodeList.SetReaderPos, Append ↔ Append) and loops share ONE fuel: every call and every
     round of a loop passes on the predecessor; running out is the distinct outcome `Res.nofuel`, never a value.  A Go
     run-time panic (index out of range, nil dereference, an explicit `panic`) is `Res.panic`, never a default value.
